@@ -270,7 +270,7 @@ def run(ctx):
     hes = phs.calls_to(r"Parser::help_err$")
     require(fx, res, "R12.3", "help-subcommand-renders-help", phs, r"Parser::help_err$", len(hes), 1, "parse_help_subcommand no longer renders help")
     for c in hes:
-        res.check(op_int(c.args[1]) == 1 and expr(phs, c.args[0]).startswith("new("), "R12.3", "help-subcommand-long-help", c.where(), "help_err(true) on a parser for the named subcommand",
+        res.check((op_int(c.args[1]) == 1 or expr(phs, c.args[1]) in ("1", "true")) and expr(phs, c.args[0]).startswith("new("), "R12.3", "help-subcommand-long-help", c.where(), "help_err(true) on a parser for the named subcommand",
                   "`help <sub>` renders with use_long = %s: whether long help is shown depends on something other than the request itself (the level the word `help` was typed at)" % expr(phs, c.args[1])[:60])
     # ---------------- R12.3 help for the current level
     he = fx.body("clap_builder::parser::parser::Parser::help_err")
